@@ -1514,35 +1514,37 @@ func checkStoppedClientIsDetached(c *Ctx, rule string) {
 	}
 	// the guard field: a field of the receiver whose non-nil edge leads to a return without anything being stored to it
 	guard := ""
-	for _, b := range attach.Blocks {
-		for si := range b.Succs {
-			ef := edgeFactOf(b, si)
-			if ef == nil || ef.Kind != "nonnil" {
-				continue
-			}
-			_, f, _, ok := fieldOf(stripConv(ef.V))
-			if !ok {
-				continue
-			}
-			if len(storesToFieldOwner(attach, "Wallet", f)) == 0 {
-				continue
-			}
-			// on that edge the function returns without attaching
-			q := &PathQuery{Fn: attach}
-			q.Target = func(ins ssa.Instruction, _ *ssa.BasicBlock) bool {
-				st, ok := ins.(*ssa.Store)
-				if !ok {
-					return false
+	for _, attach := range p.regionOf(attach) { // the test may sit in a private part (attachChainClient)
+		for _, b := range attach.Blocks {
+			for si := range b.Succs {
+				ef := edgeFactOf(b, si)
+				if ef == nil || ef.Kind != "nonnil" {
+					continue
 				}
-				fa, ok := st.Addr.(*ssa.FieldAddr)
+				_, f, _, ok := fieldOf(stripConv(ef.V))
 				if !ok {
-					return false
+					continue
 				}
-				_, f2 := fieldAddrName(fa)
-				return f2 == f
-			}
-			if len(exploreFromBlock(q, b.Succs[si], b)) == 0 {
-				guard = f
+				if len(storesToFieldOwner(attach, "Wallet", f)) == 0 {
+					continue
+				}
+				// on that edge the function returns without attaching
+				q := &PathQuery{Fn: attach}
+				q.Target = func(ins ssa.Instruction, _ *ssa.BasicBlock) bool {
+					st, ok := ins.(*ssa.Store)
+					if !ok {
+						return false
+					}
+					fa, ok := st.Addr.(*ssa.FieldAddr)
+					if !ok {
+						return false
+					}
+					_, f2 := fieldAddrName(fa)
+					return f2 == f
+				}
+				if len(exploreFromBlock(q, b.Succs[si], b)) == 0 {
+					guard = f
+				}
 			}
 		}
 	}
